@@ -42,6 +42,7 @@ type Engine struct {
 	Caps          Caps     // park-point classes under control (probe.go)
 	relabelled    []string // sites whose first-reach position was not their protocol meaning (corrected)
 	skippedCtl    map[string]int
+	toCycle       int
 }
 
 func NewEngine(e *hk.Env) *Engine {
@@ -89,7 +90,9 @@ func (en *Engine) Finish(family string, r *Run) {
 	h := r.History()
 	nev := r.Events()
 	tag := "M"
-	if (nev <= en.MaxAcceptEvents && r.N <= en.MaxAcceptLanes) || (nev <= 40 && r.N <= 4) {
+	if r.ForceM {
+		// events of this history were synthesized from Status() observations: no acceptor
+	} else if (nev <= en.MaxAcceptEvents && r.N <= en.MaxAcceptLanes) || (nev <= 40 && r.N <= 4) {
 		tag = "H"
 		if nev <= 26 && r.N <= 2 {
 			tag = "HS"
